@@ -49,6 +49,10 @@ pub struct Cfg {
     /// What the process-wide `tracing` subscriber enables while this run's tasks execute
     /// (see `logsub.rs`): 0 nothing, 1 WARN, 2 everything, 3 everything and formatted.
     pub log: u8,
+    /// The executor hands every poll a *new* waker and honours only the one handed to the most
+    /// recent poll of a task (all that `Future::poll`'s contract promises): something that keeps
+    /// the waker of an earlier poll and wakes that one is not heard.
+    pub fresh_wakers: bool,
 }
 
 impl Cfg {
@@ -65,6 +69,7 @@ impl Cfg {
             seam_env: false,
             bias: 0,
             log: 0,
+            fresh_wakers: false,
         }
     }
 
@@ -90,6 +95,7 @@ impl Cfg {
             seam_env: t.draw(2) == 1,
             bias: t.draw(3) as u8,
             log: [0, 0, 0, 1, 1, 2, 3, 1][t.draw(8)],
+            fresh_wakers: t.draw(3) == 2,
         }
     }
 }
